@@ -45,6 +45,10 @@ pub struct NetCfg {
     /// one-way delay for datagrams from/to the k-th distinct client address (missing entries: delay_us)
     #[serde(default)]
     pub addr_delays_us: Vec<u64>,
+    /// an apparent migration: the first small (< 200 bytes) client datagram sent at or after this time reaches the server
+    /// with a source address nobody listens on (0 = never)
+    #[serde(default)]
+    pub spoof_after_us: u64,
 }
 
 pub struct AdvNet {
@@ -60,6 +64,7 @@ pub struct AdvNet {
     first_dcid: Option<Vec<u8>>,
     first_scid: Option<Vec<u8>>,
     injected: u64,
+    spoofed: bool,
 }
 
 impl AdvNet {
@@ -91,7 +96,7 @@ impl AdvNet {
             }
         }
         Self { cfg, rng, idx: HashMap::new(), sched, server: Default::default(),
-               inject: Arc::new(Mutex::new(inj)), client_addrs: Default::default(), first_dcid: None, first_scid: None, injected: 0 }
+               inject: Arc::new(Mutex::new(inj)), client_addrs: Default::default(), first_dcid: None, first_scid: None, injected: 0, spoofed: false }
     }
 
     fn decide(&mut self, dir: &'static str, idx: u64, now: u64, len: usize) -> String {
@@ -137,6 +142,7 @@ fn deliver(buffers: &Buffers, mut packet: Packet, at: Duration, dir: &'static st
         }
         let len = packet.payload.len();
         buffers.rx(*packet.path.local_address, |queue| {
+            if copy == 9 { crate::common::SPOOF_FLAG.with(|f| f.set(true)); }
             emit(json!({"ev": "dgrx", "dir": dir, "idx": idx, "len": len, "copy": copy}));
             queue.enqueue(packet);
         });
@@ -193,7 +199,7 @@ impl Network for AdvNet {
             pending.push(packet);
             Ok(())
         });
-        for packet in pending {
+        for mut packet in pending {
             count += 1;
             let dst: SocketAddr = (*packet.path.remote_address).into();
             let src: SocketAddr = (*packet.path.local_address).into();
@@ -214,6 +220,15 @@ impl Network for AdvNet {
                     }
                 }
             }
+            let mut spoofed_now = false;
+            if dir == "c2s" && !self.spoofed && self.cfg.spoof_after_us > 0 && now >= self.cfg.spoof_after_us && packet.payload.len() < 200
+                && packet.payload.first().map(|b| b & 0x80 == 0).unwrap_or(false) {
+                self.spoofed = true;
+                let fake: SocketAddr = "1.0.9.9:5555".parse().unwrap();
+                emit(json!({"ev": "spoofed_source", "len": packet.payload.len(), "from": src.to_string(), "as": fake.to_string()}));
+                packet.path.local_address = s2n_quic_core::inet::SocketAddress::from(fake).into();
+                spoofed_now = true;
+            }
             let idx = {
                 let e = self.idx.entry(dir).or_insert(0);
                 *e += 1;
@@ -232,7 +247,7 @@ impl Network for AdvNet {
             };
             let base = Duration::from_micros(path_delay + if self.cfg.jitter_us > 0 { self.rng.random_range(0..self.cfg.jitter_us) } else { 0 });
             match act.as_str() {
-                "pass" => deliver(buffers, packet, base, dir, idx, 0),
+                "pass" => deliver(buffers, packet, base, dir, idx, if spoofed_now { 9 } else { 0 }),
                 "dup" => {
                     let extra = Duration::from_micros(self.rng.random_range(0..4 * self.cfg.delay_us.max(1000)));
                     deliver(buffers, packet.clone(), base, dir, idx, 0);
